@@ -158,7 +158,7 @@ def main():
                                 rec["outcome"] = "SURVIVED"
                                 rec["checks"] = {}
                                 for c in checks_for(m["file"]):
-                                    env = dict(ENV, VERIF_EVIDENCE_DIR=S + "/ev", VERIF_SEED="1")
+                                    env = dict(ENV, VERIF_EVIDENCE_DIR=S + "/ev", VERIF_SEED="1", VERIF_CASE_DEADLINE="60", VERIF_CHECK_DEADLINE="900")
                                     try:
                                         r = subprocess.run([S + "/vcheck", c, "--tier", "quick"], cwd="/verif", env=env, stdout=subprocess.PIPE,
                                                            stderr=subprocess.STDOUT, timeout=1500, text=True)
